@@ -2,7 +2,7 @@
 import ast
 
 from ..model import AnchorError, call_name, const_str, dotted, src
-from ..rules import FuncView, suffix_match, defect_scope
+from ..rules import FuncView, suffix_match, defect_scope, path_condition, formula_implies, formula_equiv, formula_implied_by
 from ..callgraph import closure
 from .. import defects
 
@@ -109,7 +109,9 @@ def check(ctx):
     if ok:
         st = pop[0][0].ast
         names = [e.id for e in st.targets[0].elts] if isinstance(st, ast.Assign) and isinstance(st.targets[0], ast.Tuple) else []
-        ok = len(names) == 2 and [src(a) for a in tx[0][1].args] == [names[0] + ".packed", names[1]]
+        ok = len(names) == 2 and [src(V.sym(a, tx[0][0])) for a in tx[0][1].args] == [names[0] + ".packed", names[1]]
+    if ok:   # every popped packet is handed over in the same call: the order on txPkts is the order on the connection
+        ok = formula_equiv(path_condition(V, tx[0][0], start=[V.cfg.entry.id]), "True")
     from ..callgraph import resolve_call
     res = resolve_call(repo, tx[0][1], so) if tx else []
     ctx.check(ok and bool(res), "T9-serverTx", so, "TcpServerStack: pkt, ca = txPkts.popleft(); handler.transmitIx(pkt.packed, ca) (callee resolved: %s)" % bool(res),
@@ -122,33 +124,42 @@ def check(ctx):
                 raise AnchorError("ClientStreamStack._serviceOneTxPkt not found")
             continue        # inherits the stream stack's discipline
         W = FuncView(ctx, f, exc="raise")
-        t = W.tests(lambda t: src(t) == "not self.txbs")
+        sv = lambda e, n: src(W.sym(e, n))
+        entry = [W.cfg.entry.id]
         pl = W.call_nodes("self.txPkts.popleft")
         ex = W.call_nodes("self.txbs.extend")
-        ok = bool(t) and bool(pl) and bool(ex) and W.dominated_by_edge(pl + ex, t[0], "T")
+        ok = bool(pl) and bool(ex) and all(formula_implies(path_condition(W, n, start=entry), "not self.txbs") for n in pl + ex)
         ctx.check(ok, "T9-txbs", f, "%s: next packet loaded only if txbs is empty" % cn, "a new packet must not be mixed into a partially sent one")
-        pt = W.tests(lambda t: src(t) == "count < len(self.txbs)")
-        dl = [n for n in W.cfg.nodes if isinstance(n.ast, ast.Delete) and src(n.ast.targets[0]) == "self.txbs[:count]"]
-        cl = W.call_nodes("self.clearTxbs")
-        rets = [n for n in W.cfg.nodes if n.kind == "return"]
-        ok = bool(pt) and len(dl) == 1 and bool(cl) and W.dominated_by_edge(dl, pt[0], "T") and W.dominated_by_edge(cl, pt[0], "F")
-        ok = ok and any(W.dominated_by_edge([r], pt[0], "T") and isinstance(r.ast.value, ast.Constant) and r.ast.value.value is False for r in rets)
         sd = W.calls("self.handler.send")
-        ok = ok and len(sd) == 1 and src(sd[0][1].args[0]) == "self.txbs"
-        cnt = [n for n in W.cfg.nodes if isinstance(n.ast, ast.Assign) and dotted(n.ast.targets[0]) == "count"]
-        ok = ok and len(cnt) == 1 and "self.handler.send(self.txbs)" in src(cnt[0].ast.value)
+        ok = len(sd) == 1 and sv(sd[0][1].args[0], sd[0][0]) == "self.txbs"
+        sent = src(W.sym(sd[0][1], sd[0][0])) if sd else "?"
+        dl = [n for n in W.cfg.nodes if isinstance(n.ast, ast.Delete)]
+        cl = W.call_nodes("self.clearTxbs")
+        ok = ok and len(dl) == 1 and bool(cl)
+        if ok:
+            tg = dl[0].ast.targets[0]
+            ok = isinstance(tg, ast.Subscript) and isinstance(tg.slice, ast.Slice) and tg.slice.lower is None and tg.slice.step is None and \
+                tg.slice.upper is not None and sv(tg.value, dl[0]) == "self.txbs" and sv(tg.slice.upper, dl[0]) == sent
+            partial = "%s < len(self.txbs)" % sent
+            ok = ok and formula_implies(path_condition(W, dl[0], start=entry), partial) and \
+                all(formula_implies(path_condition(W, c, start=entry), "not (%s)" % partial) for c in cl)
+            after = [n for n in W.cfg.nodes if n.kind == "return" and n.id in W.cfg.reachable(dl[0].id)]
+            ok = ok and bool(after) and all(isinstance(r.ast.value, ast.Constant) and r.ast.value.value is False for r in after)
         ctx.check(ok, "T9-txbs", f, "%s: count = send(txbs); partial => del txbs[:count], return False; full => clearTxbs()" % cn,
                   "after a partial send exactly the sent prefix must be dropped so the rest goes out next, once")
     for cn, meth, buf in (("TcpServerStack", "_serviceOneReceived", "ix.rxbs"), ("ClientStreamStack", "_serviceOneReceived", "self.rxbs")):
         f = ctx.cls("stacking", cn).own_method(meth)
         W = FuncView(ctx, f)
-        dl = [n for n in W.cfg.nodes if isinstance(n.ast, ast.Delete) and src(n.ast.targets[0]) == "%s[:packet.size]" % buf]
+        sv = lambda e, n: src(W.sym(e, n))
+        parsed = "self.parserize(%s[:])" % buf
+        dl = [n for n in W.cfg.nodes if isinstance(n.ast, ast.Delete) and isinstance(n.ast.targets[0], ast.Subscript) and
+              sv(n.ast.targets[0].value, n) == buf and isinstance(n.ast.targets[0].slice, ast.Slice) and n.ast.targets[0].slice.lower is None
+              and n.ast.targets[0].slice.upper is not None and sv(n.ast.targets[0].slice.upper, n) == parsed + ".size"]
+        alld = [n for n in W.cfg.nodes if isinstance(n.ast, ast.Delete)]
         ap = W.call_nodes("self.rxPkts.append")
-        nt = W.tests(lambda t: src(t) in ("packet is None", "packet is not None"))
-        ok = len(dl) == 1 and bool(ap) and bool(nt)
+        ok = len(dl) == 1 and len(alld) == 1 and bool(ap)
         if ok:
-            lab = "F" if src(nt[0].ast.test) == "packet is None" else "T"
-            ok = W.dominated_by_edge(dl + ap, nt[0], lab) and W.dominated(ap, dl)
+            ok = all(formula_implies(path_condition(W, n, start=[W.cfg.entry.id]), "not (%s is None)" % parsed) for n in dl + ap) and W.dominated(ap, dl)
         ctx.check(ok, "T9-rx", f, "%s.%s: del %s[:packet.size] and rxPkts.append only for a parsed packet" % (cn, meth, buf),
                   "every received byte must end up in exactly one received packet")
     # bytes read from a connection are parsed before that connection can be reaped: in serviceAll no serviceConnects()
@@ -168,3 +179,18 @@ def check(ctx):
     ctx.check(not bad, "T3-rxorder", sa_, "serviceAll: receive pass -> parse pass with no serviceConnects() in between",
               "when a peer sends its last packets and closes, data and end-of-stream are read in the same pass; reaping the "
               "connection before the parse pass throws the received bytes away")
+
+    # a partly sent packet is finished even when nothing else is queued behind it
+    ctx.rule("T2-drain", "TcpClientStack.serviceTxPkts[Once]: _serviceOneTxPkt() is tried whenever txbs still holds unsent bytes "
+             "(and only when there is something to send)")
+    for mn in ("serviceTxPkts", "serviceTxPktsOnce"):
+        f = TC.own_method(mn)
+        D = FuncView(ctx, f)
+        one = D.need(D.call_nodes("self._serviceOneTxPkt"), "_serviceOneTxPkt() in TcpClientStack.%s" % mn)
+        pc = ("or", [path_condition(D, n, start=[D.cfg.entry.id], loops=True) for n in one])
+        ok = formula_implied_by(pc, "self.txbs and self.handler.connected and not self.handler.cutoff")
+        ctx.check(ok, "T2-drain", f, "TcpClientStack.%s sends while txbs is not empty" % mn,
+                  "a packet the socket accepted only partly stays in .txbs; if the loop runs only while .txPkts is non-empty, the "
+                  "tail of the last queued packet is never sent (until some later packet happens to be queued)")
+        ctx.check(formula_implies(pc, "self.txPkts or self.txbs"), "T2-drain", f, "TcpClientStack.%s sends only when there is a packet or a pending tail" % mn,
+                  "_serviceOneTxPkt() pops from an empty deque")
